@@ -4,7 +4,7 @@
 from math import sqrt
 from typing import Any
 
-from numpy import nan
+from numpy import isfinite, nan
 from pandas import DataFrame, Series
 from scipy.spatial.distance import correlation
 from scipy.stats import kruskal, pearsonr, spearmanr
@@ -44,9 +44,9 @@ def kruskal_measure(
     # computation of Kruskal-Wallis statistic
     kw = kruskal(*tuple(x[(~nans) & (y == y_value)] for y_value in y_values))
 
-    # updating association
+    # updating association (an infinite statistic -- x constant over its observed rows -- is undefined)
     active, measurement = False, {"kruskal_measure": nan}
-    if kw:
+    if kw and isfinite(kw[0]):
         measurement = {"kruskal_measure": kw[0]}
 
         # Excluding features not associated enough
